@@ -69,6 +69,18 @@ class Exec:
         self.now = T0 + t
         self.cmds.append("clock %d" % self.now)
 
+    def sendpar(self, threads, per, batch=1):
+        self.cmds.append("sendpar %d %d %d" % (threads, per, batch))
+        self.abstract.append(("sendpar", threads, per, batch))
+
+    def peerclose(self):
+        self.cmds.append("peerclose")
+        self.abstract.append(("peerclose",))
+
+    def reconnect(self):
+        self.cmds.append("reconnect 0 0")
+        self.abstract.append(("reconnect",))
+
     def restart(self):
         self.cmds.append("restart")
         self.abstract.append(("restart",))
@@ -96,7 +108,7 @@ class Exec:
         wire = raw if raw is not None else F.compose(msgtype, seq, sender, target, F.ts(sending),
                                                       b, possdup, None if orig is None else F.ts(orig), **kw)
         bd = dict((str(t), v) for t, v in b)
-        self.ins.append({"type": msgtype, "seq": seq, "possdup": possdup, "has_orig": orig is not None,
+        self.ins.append({"type": msgtype, "seq": seq, "possdup": possdup is True, "has_orig": orig is not None,
                          "orig": (orig - T0) if orig is not None else 0, "sending": sending - T0,
                          "sci": sender, "tci": target, "id": 100 + ident if ident else 0, "valid": valid, "why": why,
                          "hbint": int(bd.get("108", 0)), "reset": bd.get("141") == "Y",
@@ -167,10 +179,12 @@ def to_monitor(ev, ex, ri):
         ri += 1
     if e == "Send":
         m["kind"] = ev["kind"]
+    if e == "SendPar":
+        m["threads"], m["per"], m["batch"], m["pmodel"] = ev["threads"], ev["per"], ev["batch"], ex.flags.get("pmodel", "thread")
     return m, ri
 
 
-def run_execs(ctx, execs, name, variant="mix", nproc=14):
+def run_execs(ctx, execs, name, variant="mix", nproc=14, per_process=None):
     """Run executions through probe_session (a few processes), return per-execution monitor events.
     variant "mix": every 8th execution under ASan+UBSan, the rest on the plain build (thread creation
     under ASan costs ~200 ms CPU per session, 5x the plain build)."""
@@ -193,7 +207,7 @@ def run_execs(ctx, execs, name, variant="mix", nproc=14):
     wd = os.path.join(ctx.workdir, name)
     shutil.rmtree(wd, ignore_errors=True)
     os.makedirs(wd)
-    nproc = min(nproc, max(1, len(execs) // 20))
+    nproc = min(nproc, max(1, len(execs) // 20)) if per_process is None else max(1, len(execs) // per_process)
     parts = [list(range(i, len(execs), nproc)) for i in range(nproc)]
 
     def one(pi):
@@ -207,7 +221,7 @@ def run_execs(ctx, execs, name, variant="mix", nproc=14):
             ctx.extra["transient_probe_aborts"] = ctx.extra.get("transient_probe_aborts", 0) + 1
             evs, rc, err = core.run_probe(binary, inp, env, timeout=900, cwd=wd)
         return evs, rc, err
-    with ThreadPoolExecutor(max_workers=nproc) as ex:
+    with ThreadPoolExecutor(max_workers=min(nproc, 8 if per_process else nproc)) as ex:
         res = list(ex.map(one, range(nproc)))
     out = [None] * len(execs)
     aborts = []
@@ -262,7 +276,7 @@ import subprocess
 
 class Live:
     """A probe_session process driven interactively: cmd() sends one command and returns its event."""
-    SILENT = ("clock", "set", "outhex")
+    SILENT = ("clock", "set", "outhex", "peerclose")
 
     def __init__(self, variant="plain", cwd=None):
         self.bin = probe_binary(variant)
